@@ -88,10 +88,11 @@ Expected(inb, by) == [i \in 1..MaxOut |-> Piece(inb, by, i)]
 Flat(ps) == [k \in 1..(Len(ps) * PieceLen) |-> ps[((k-1) \div PieceLen) + 1][((k-1) % PieceLen) + 1]]
 
 Base == [failfrom |-> 0, srcfail |-> -1, srcshort |-> FALSE, notexist |-> FALSE, probeOnErr |-> TRUE,
-         ct |-> "none", ext |-> "U", cl |-> "none", wh |-> "no", mw |-> "rw", gate |-> "none", cbuf |-> 1]
+         ct |-> "none", ext |-> "U", cl |-> "none", wh |-> "no", mw |-> "rw", gate |-> "none", cbuf |-> 1, after |-> FALSE]
 SrcFaults == {<<-1, FALSE>>} \cup {<<s, sh>> \in (0..Len(Input)) \X BOOLEAN : sh => s > 0}
-CfgW == { [Base EXCEPT !.failfrom = f, !.notexist = ne, !.gate = g] :
-            f \in 0..(MaxOut+1), ne \in BOOLEAN, g \in {"none", "close"} }
+\* after: the producer goes on after Close returned - one more Write, then Close again
+CfgW == { [Base EXCEPT !.failfrom = f, !.notexist = ne, !.gate = g, !.after = a] :
+            f \in 0..(MaxOut+1), ne \in BOOLEAN, g \in {"none", "close"}, a \in BOOLEAN }
 CfgR == { [Base EXCEPT !.srcfail = s[1], !.srcshort = s[2], !.notexist = ne, !.probeOnErr = pe, !.cbuf = cb] :
             s \in SrcFaults, ne \in BOOLEAN, pe \in BOOLEAN, cb \in 1..MaxBuf }
 CfgP == { [Base EXCEPT !.failfrom = f, !.srcfail = s[1], !.srcshort = s[2], !.notexist = ne, !.probeOnErr = pe] :
@@ -124,7 +125,7 @@ WantOf(t) == IF Known(t) THEN [n |-> MaxOut * PieceLen, h |-> Flat(Expected(Inpu
              ELSE [n |-> 0, h |-> <<>>, b |-> <<>>, e |-> "notexist", t |-> "notexist"]
 Hdr == [mode |-> IF mode = "response" THEN (IF cfg.mw = "rw" THEN "response" ELSE "mwerr") ELSE mode,
         ff |-> cfg.failfrom, sf |-> cfg.srcfail, small |-> TRUE, in |-> Input, inn |-> Len(Input), inh |-> Input, h0 |-> <<>>,
-        nwrite |-> mon.nwrite, want |-> IF cfg.notexist THEN WantOf("U") ELSE WantOf("K1"),
+        nwrite |-> mon.nwrite, after |-> cfg.after, want |-> IF cfg.notexist THEN WantOf("U") ELSE WantOf("K1"),
         ct |-> IF cfg.ct = "none" THEN "" ELSE cfg.ct, xt |-> cfg.ext, cl |-> IF cfg.cl = "stale" THEN Len(Input) ELSE -1,
         wct |-> WantOf(cfg.ct), wxt |-> WantOf(cfg.ext)]
 Observe(m, e) == [m EXCEPT !.bad = @ \cup EventBad(m.st, e, Hdr), !.st = Apply(m.st, e, Hdr)]
@@ -192,6 +193,17 @@ PCloseRet == /\ cst = "waitwg" /\ (wgdone \/ Mut = "nowait")
                                  \o (IF cfg.mw = "mwerr" /\ wk.zerr # "nil" THEN <<EErr("ErrFunc", wk.zerr)>> ELSE <<>>)
                                  \o <<IF cfg.mw = "mwerr" THEN Ev("CloseRet", 0, 0, "unseen", "", <<>>) ELSE EErr("CloseRet", wk.zerr)>>)
              /\ UNCHANGED <<mode, cfg, chunks, pipe, wk, sink, src, http, wgdone>>
+
+\* use after Close: pw.Write on the closed pipe fails with ErrClosedPipe and hands nothing on; a second Close returns
+\* nil at once (z.closed)
+PLateWrite == /\ mode = "writer" /\ cst = "done" /\ cfg.after
+              /\ cst' = "late" /\ cres' = [cres EXCEPT !.writes = Append(@, "ErrClosedPipe")]
+              /\ Rec("LateWrite", <<EErr("LateWriteRet", "ErrClosedPipe")>>)
+              /\ UNCHANGED <<mode, cfg, chunks, pipe, wk, sink, src, http, wgdone>>
+PClose2 == /\ cst = "late"
+           /\ cst' = "done2"
+           /\ Rec("Close2", <<EErr("Close2Ret", "nil")>>)
+           /\ UNCHANGED <<mode, cfg, chunks, cres, pipe, wk, sink, src, http, wgdone>>
 
 -----------------------------------------------------------------------------
 (* handler + middleware (mode "response") *)
@@ -349,16 +361,17 @@ PRet == /\ mode \in {"plain", "bytes"} /\ cst = "pcall" /\ wk.st = "exited"
                              IF wk.zerr = "nil" THEN Flat(sink.delivered) ELSE Txt(wk.zerr), Flat(sink.delivered))>>)
         /\ UNCHANGED <<mode, cfg, chunks, pipe, wk, sink, src, http, wgdone>>
 (* harness: the sink gate opens only once Close is in flight *)
-GateOpen == /\ cfg.gate = "close" /\ ~sink.open /\ cst \in {"waitwg", "done"}
+GateOpen == /\ cfg.gate = "close" /\ ~sink.open /\ cst \in {"waitwg", "done", "late", "done2"}
             /\ sink' = [sink EXCEPT !.open = TRUE]
             /\ Rec("GateOpen", <<E0("GateOpen")>>)
             /\ UNCHANGED <<mode, cfg, chunks, cst, cres, pipe, wk, src, http, wgdone>>
 
-Client == PWriteCall \/ PWriteRet \/ PCloseCall \/ PCloseRet \/ HStart \/ HSelect \/ HPassWrite
+Client == PWriteCall \/ PWriteRet \/ PCloseCall \/ PCloseRet \/ PLateWrite \/ PClose2 \/ HStart \/ HSelect \/ HPassWrite
           \/ HWriteHeaderLast \/ HClose \/ CRead \/ PRet
 Worker == WStart \/ WReadPipe \/ WReadSrc \/ WSrcErr \/ WWriteSink \/ WProbeSink \/ WPipeBegin \/ WPipeEnd
           \/ WExit1 \/ WExit2
-Terminated == cst = "done" /\ wk.st \in {"none", "exited"} /\ (cfg.gate = "close" => sink.open)
+Finished == cst = (IF mode = "writer" /\ cfg.after THEN "done2" ELSE "done")
+Terminated == Finished /\ wk.st \in {"none", "exited"} /\ (cfg.gate = "close" => sink.open)
 Next == Client \/ Worker \/ GateOpen \/ (Terminated /\ UNCHANGED vars)
 Spec == Init /\ [][Next]_vars /\ WF_vars(Client) /\ WF_vars(Worker) /\ WF_vars(GateOpen)
 \* generator: only the initial states (the harness-controlled choices) are enumerated
@@ -366,7 +379,7 @@ GenSpec == Init /\ [][FALSE]_vars
 
 -----------------------------------------------------------------------------
 NoFault == cfg.failfrom = 0 /\ cfg.srcfail < 0
-Done == cst = "done"
+Done == cst \in {"done", "late", "done2"}         \* Close (the plain call, the consumer's last Read) has returned
 PassExpected == [i \in 1..Len(sink.delivered) |-> sink.delivered[i]]
 \* C12 "byte-identical output to the plain reader-to-writer call, regardless of how the input is split"
 ChunkingInvariance ==
@@ -384,7 +397,7 @@ PassThrough == (mode = "response" /\ http.sel = "pass" /\ cfg.failfrom = 0) =>
 \* C12 "deliver all output and the minifier's error by the time Close returns"
 CloseWaits == (Done /\ mode \in {"writer", "response"} /\ wk.st # "none") => (wk.st = "exited" /\ cres.close = wk.err)
 \* C12: nothing reaches the sink after Close returned (action property)
-NoWriteAfterClose == [][(cst = "done" /\ mode \in {"writer", "response"}) => sink'.delivered = sink.delivered]_vars
+NoWriteAfterClose == [][(Done /\ mode \in {"writer", "response"}) => sink'.delivered = sink.delivered]_vars
 \* C12 "the middleware removes a stale Content-Length": no minified response is committed with the handler's length
 ContentLengthGone == http.committed = "withcl" => http.sel = "pass"
 \* C12 "picks the minifier from Content-Type, falling back to the request path extension"
@@ -402,7 +415,7 @@ NotExistSurfaces == (Done /\ cfg.notexist /\ mode = "writer") => (cres.close = "
 NoPartialInput == \A i \in 1..Len(sink.delivered) :
                      (mode # "response" \/ Known(http.sel)) => \A j \in 1..PieceLen : sink.delivered[i][j].of = Input
 \* C12/C14 "Close always returns" (and the plain call, and the consumer sees the end)
-CloseReturned == <>(cst = "done")
+CloseReturned == <>Finished
 
 \* D => A: the property relation (StreamRel), run as a monitor over the events of every behaviour of the design,
 \* never flags anything - in particular no clause of the trace specification rejects an interleaving that the
